@@ -1,6 +1,7 @@
 ---------------------------- MODULE TraceLogRolling ----------------------------
 (* Validates executions recorded from the real policies (logrolling_driver).                      *)
-(* Events:  {"e":"Reset","kind":"counted"|"maxsize"|"simple","limit":n,"G":n}   empty directory    *)
+(* Events:  {"e":"Reset","kind":"counted"|"maxsize"|"simple","limit":n,"G":n,"via":v} empty dir.  *)
+(*          (via = "policy" | "handler": how the driver reaches the policy; not constrained)      *)
 (*          {"e":"OpenBegin"}                              before new policy object + open()       *)
 (*          {"e":"Rename","k":dest gen,"src":src gen,"rc":0|-1,"log":P}   inside FileOperations::rename *)
 (*          {"e":"OpenEnd","res":"ok"|"exception","cur":n,"log":P} after open() returned; cur =    *)
